@@ -663,9 +663,9 @@ func post_AddRange_others(s *Subscribers, from Subscribers) bool {
 // sorted by message time (sort.Slice is outside the verified code: a recorded call on THIS frame) and then cut to
 // its LAST n elements - a view of the sorted frame, nothing copied, nothing reordered afterwards; a frame of at
 // most n elements is kept whole; a negative n keeps nothing.
-//@ assume (Frame).Sort iface for=Limit
-//@ verify (*Frame).Limit as=functional pre=pre_Frame_Limit post=post_Frame_Limit props=C06,C07
-//@ assume (Frame).Sort iface for=functional
+// @ assume (Frame).Sort iface for=Limit
+// @ verify (*Frame).Limit as=functional pre=pre_Frame_Limit post=post_Frame_Limit props=C06,C07
+// @ assume (Frame).Sort iface for=functional
 func post_Frame_Limit(f *Frame, n int, old_f Frame) bool {
 	s := vs.TraceFind("Frame).Sort")
 	if s != 0 || vs.TraceLen() != 1 {
